@@ -2,9 +2,11 @@
 package dir
 
 import (
+	"errors"
 	"fmt"
 
 	"github.com/shogo82148/goat/jwa"
+	"github.com/shogo82148/goat/jwk/jwktypes"
 	"github.com/shogo82148/goat/keymanage"
 )
 
@@ -30,24 +32,37 @@ func (alg *Algorithm) NewKeyWrapper(key keymanage.Key) keymanage.KeyWrapper {
 		return keymanage.NewInvalidKeyWrapper(fmt.Errorf("dir: invalid key type: %T", privateKey))
 	}
 	return &KeyWrapper{
-		cek: cek,
+		cek:        cek,
+		canEncrypt: jwktypes.CanUseFor(key, jwktypes.KeyOpEncrypt),
+		canDecrypt: jwktypes.CanUseFor(key, jwktypes.KeyOpDecrypt),
 	}
 }
 
 var _ keymanage.KeyWrapper = (*KeyWrapper)(nil)
 
 type KeyWrapper struct {
-	cek []byte
+	cek        []byte
+	canEncrypt bool
+	canDecrypt bool
 }
 
 func (w *KeyWrapper) WrapKey(cek []byte, opts any) ([]byte, error) {
+	if !w.canEncrypt {
+		return nil, errors.New("dir: encryption operation is not allowed")
+	}
 	return []byte{}, nil
 }
 
 func (w *KeyWrapper) UnwrapKey(data []byte, opts any) ([]byte, error) {
+	if !w.canDecrypt {
+		return nil, errors.New("dir: decryption operation is not allowed")
+	}
 	return w.cek, nil
 }
 
 func (w *KeyWrapper) DeriveKey(opts any) (cek, encryptedCEK []byte, err error) {
+	if !w.canEncrypt {
+		return nil, nil, errors.New("dir: encryption operation is not allowed")
+	}
 	return w.cek, []byte{}, nil
 }
